@@ -145,6 +145,45 @@ fn ref_int(d: &[u8]) -> Option<(bool, u128)> {
     Some((neg, body.iter().fold(0u128, |a, b| a * 10 + (*b - b'0') as u128)))
 }
 
+thread_local! {
+    /// decimal leaves met with a typed float target while computing an expectation (drained into the histogram)
+    static FLOAT_HITS: std::cell::RefCell<Vec<String>> = std::cell::RefCell::new(Vec::new());
+}
+
+/// `-?digits.digits` → (number of fraction digits, all digits read as one integer; saturating)
+fn decimal_text(t: &[u8]) -> Option<(usize, u128)> {
+    let body = if t.first() == Some(&b'-') { &t[1..] } else { t };
+    let dot = body.iter().position(|b| *b == b'.')?;
+    let (a, b) = (&body[..dot], &body[dot + 1..]);
+    if a.is_empty() || b.is_empty() || !a.iter().chain(b.iter()).all(|c| c.is_ascii_digit()) { return None; }
+    let digits = a.iter().chain(b.iter()).fold(0u128, |acc, c| acc.saturating_mul(10).saturating_add((*c - b'0') as u128));
+    Some((b.len(), digits))
+}
+
+/// result against expectation; `f~<bits>` / `g~<bits>` in the expectation accept 2 ulp (f64) / 1 ulp (f32)
+fn matches_expect(r: &str, e: &str) -> bool {
+    if !e.contains('~') { return r == e; }
+    let (rb, eb) = (r.as_bytes(), e.as_bytes());
+    let (mut i, mut j) = (0usize, 0usize);
+    while j < eb.len() {
+        if j + 1 < eb.len() && (eb[j] == b'f' || eb[j] == b'g') && eb[j + 1] == b'~' {
+            if i >= rb.len() || rb[i] != eb[j] { return false; }
+            let num = |s: &[u8], mut k: usize| -> (u64, usize) { let mut v: u64 = 0; while k < s.len() && s[k].is_ascii_digit() { v = v.wrapping_mul(10).wrapping_add((s[k] - b'0') as u64); k += 1; } (v, k) };
+            let (ev, j2) = num(eb, j + 2);
+            let (rv, i2) = num(rb, i + 1);
+            if i2 == i + 1 { return false; }
+            // same sign, finite: neighbouring bit patterns are neighbouring values
+            let tol = if eb[j] == b'f' { 2 } else { 1 };
+            if ev.abs_diff(rv) > tol { return false; }
+            i = i2; j = j2;
+        } else {
+            if i >= rb.len() || rb[i] != eb[j] { return false; }
+            i += 1; j += 1;
+        }
+    }
+    i == rb.len()
+}
+
 fn raw_bytes(l: &Leaf) -> Vec<u8> {
     match l { Leaf::Quo(b) => b.clone(), other => leaf_text(other).0 }
 }
@@ -171,12 +210,25 @@ fn value_of_leaf(enc: Enc, ty: &Ty, l: &Leaf) -> Option<String> {
             Some(format!("u{}", m))
         }
         Ty::F64 | Ty::F32 => {
-            // decimal meaning, correctly rounded (only for the typed leaves the generator writes canonically)
-            let ok = match l { Leaf::Int(i) => i.unsigned_abs() < (1 << 53), Leaf::Uint(u) => *u < (1 << 53), Leaf::Fixed(_) => true, _ => false };
-            if !ok { return None; }
+            // decimal meaning through Rust's correctly rounded `str::parse::<f64>` (never the crate's own
+            // conversion): bit-equal when the digits read as an integer are < 2^53, within 2 ulp otherwise
+            // (marked `f~` / `g~`); no expectation when the digits do not fit a u64 (the crate may refuse)
+            let exact = match l {
+                Leaf::Int(i) => { if i.unsigned_abs() >= (1 << 53) { return None; } true }
+                Leaf::Uint(u) => { if *u >= (1 << 53) { return None; } true }
+                Leaf::Fixed(_) => true,
+                Leaf::Unq(_) => {
+                    let (k, digits) = decimal_text(&text)?;
+                    if digits > u64::MAX as u128 { return None; }
+                    FLOAT_HITS.with(|h| h.borrow_mut().push(format!("float-target:{}:frac-digits={:02}:{}", if *ty == Ty::F64 { "f64" } else { "f32" }, k, if digits < (1u128 << 53) { "bit-exact" } else { "2ulp" })));
+                    digits < (1u128 << 53)
+                }
+                _ => return None,
+            };
             let v: f64 = std::str::from_utf8(&text).ok()?.parse().ok()?;
             if v == 0.0 && text.first() == Some(&b'-') { return None; }
-            Some(if *ty == Ty::F64 { format!("f{}", v.to_bits()) } else { format!("g{}", (v as f32).to_bits()) })
+            let mark = if exact { "" } else { "~" };
+            Some(if *ty == Ty::F64 { format!("f{}{}", mark, v.to_bits()) } else { format!("g{}{}", mark, (v as f32).to_bits()) })
         }
         Ty::Str | Ty::Any => Some(format!("s{}", hex(&decode_ref(enc, &text)))),
         Ty::Ign => Some("ign".into()),
@@ -279,7 +331,14 @@ fn has_any(t: &Ty) -> bool {
 }
 
 fn value_of(enc: Enc, ty: &Ty, doc: &Doc) -> Option<String> {
+    FLOAT_HITS.with(|h| h.borrow_mut().clear());
     value_of_fields(enc, ty, &doc.fields)
+}
+
+/// count the decimal leaves the last successful `value_of` read with a typed float target
+fn count_float_hits(g: &mut Gen, expect: &Option<String>) {
+    let hits: Vec<String> = FLOAT_HITS.with(|h| h.borrow_mut().drain(..).collect());
+    if expect.is_some() { for k in hits { g.count(&k); } }
 }
 
 // ---------------------------------------------------------------------------------------
@@ -297,6 +356,7 @@ fn gen_leaf_ty(rng: &mut Rng, l: &Leaf) -> Ty {
         Leaf::Bool(_) => match rng.below(5) { 0 => Ty::Any, 1 => Ty::Str, _ => Ty::Bool },
         Leaf::Fixed(_) => match rng.below(5) { 0 => Ty::Any, 1 => Ty::Str, 2 => Ty::F32, _ => Ty::F64 },
         Leaf::Date(..) => if rng.chance(1, 3) { Ty::Any } else { Ty::Str },
+        Leaf::Unq(b) if decimal_text(b).is_some() => match rng.below(8) { 0 => Ty::Str, 1 => Ty::Any, 2 => Ty::F32, _ => Ty::F64 },
         Leaf::Unq(b) | Leaf::Quo(b) => {
             if ident(b) && rng.chance(1, 4) {
                 let mut vs: Vec<String> = (0..rng.below(3)).map(|_| rng.pick(&VARIANT_POOL).to_string()).collect();
@@ -582,7 +642,7 @@ pub fn exec(w: &[&str], obs: &mut Obs) -> Option<String> {
                 }
             } else if *expect != "-" {
                 obs.count("tape:with-expectation");
-                if r != *expect { obs.violation("value-of", &case(), &format!("tape path {} reference {}", r, expect)); }
+                if !matches_expect(&r, expect) { obs.violation("value-of", &case(), &format!("tape path {} reference {}", r, expect)); }
                 // L3: the reader path over the same bytes yields an equal value
                 let (x, _) = run_reader(enc, &ty, TokenReader::from_slice(&data));
                 if x != r { obs.violation("paths-disagree", &case(), &format!("tape {} reader {}", r, x)); }
@@ -615,7 +675,7 @@ pub fn exec(w: &[&str], obs: &mut Obs) -> Option<String> {
                 if s != r { obs.violation(kind, &case(), &format!("reader {} tape {}", r, s)); } else { obs.count(&format!("probe-agrees:{}", kind)); }
             } else if *expect != "-" {
                 obs.count("stream:with-expectation");
-                if r != *expect { violation(obs, "value-of", format!("stream path {} reference {}", r, expect)); }
+                if !matches_expect(&r, expect) { violation(obs, "value-of", format!("stream path {} reference {}", r, expect)); }
                 let s = run_slice(enc, &ty, &data);
                 if s != r { violation(obs, "paths-disagree", format!("reader {} tape {}", r, s)); }
             }
@@ -710,7 +770,7 @@ pub fn gen(g: &mut Gen) {
         }
     }
     // 1. well-formed save-style documents x layouts x encodings x target types
-    let n = g.budget(15_000, 180_000);
+    let n = g.budget(30_000, 300_000);
     let cfg = DocCfg::save_style();
     for i in 0..n {
         let mut doc = gen_doc(&mut g.rng, &cfg);
@@ -723,13 +783,43 @@ pub fn gen(g: &mut Gen) {
         let encs: &[Enc] = if i % 3 == 0 { &[Enc::W, Enc::U] } else if i % 3 == 1 { &[Enc::W] } else { &[Enc::U] };
         for &enc in encs {
             let expect = value_of(enc, &ty, &doc);
+            count_float_hits(g, &expect);
             g.count(if expect.is_some() { "wf:with-expectation" } else { "wf:no-expectation" });
             emit_pair(g, enc, &ty, &data, expect.as_deref());
             emit_spec(g, enc, &ty, &doc, expect.as_deref());
         }
     }
+    // 1b. decimal sweep: every number of fraction digits 1..=22 (each entry of the crate's power-of-ten
+    //     table) with typed float targets; the reference is Rust's correctly rounded `str::parse`
+    let reps = g.budget(12, 120);
+    for k in 1..=22usize {
+        for rep in 0..reps {
+            let mk = |rng: &mut Rng| -> Vec<u8> {
+                let int = match rng.below(4) { 0 => 0u64, 1 => rng.below(10) as u64, 2 => rng.below(1000) as u64, _ => rng.next() >> rng.range(20, 60) };
+                // keep the digits within u64 so that the crate does not refuse: leading zeros / short integer parts
+                let lead = match rng.below(3) { 0 => 0, 1 => k / 2, _ => k.saturating_sub(3) }.max(k.saturating_sub(18));
+                let int = if k > 15 { 0 } else { int };
+                let frac: String = (0..k).map(|i| if i < lead { '0' } else if rng.chance(1, 3) { '0' } else { char::from(b'0' + rng.below(10) as u8) }).collect();
+                let z = k.saturating_sub(19);
+                let frac = if rep == 0 { format!("{}5{}", "0".repeat(z), "0".repeat(k - 1 - z)) } else { frac };
+                let int = if rep == 0 { 0 } else { int };
+                format!("{}{}.{}", if rng.chance(1, 4) { "-" } else { "" }, int, frac).into_bytes()
+            };
+            let (a, b) = (mk(&mut g.rng), mk(&mut g.rng));
+            let fld = |k: &str, v: Vec<u8>| Field { key: Leaf::Unq(k.as_bytes().to_vec()), op: Op::Eq, val: Node::Leaf(Leaf::Unq(v)), ghosts: 0, implicit_eq: false };
+            let doc = Doc { fields: vec![fld("x", a.clone()), fld("list", b.clone()), fld("y", a)] };
+            let ty = Ty::Struct(vec![("x".into(), Ty::F64), ("y".into(), if rep % 3 == 0 { Ty::Prop(Box::new(Ty::F32)) } else { Ty::F32 }), ("list".into(), Ty::Opt(Box::new(Ty::F64)))]);
+            let data = render_layout(&mut g.rng, &LayoutCfg::reader_safe(), &lexemes(&doc));
+            let enc = if rep % 2 == 0 { Enc::W } else { Enc::U };
+            let expect = value_of(enc, &ty, &doc);
+            count_float_hits(g, &expect);
+            g.count(if expect.is_some() { "decimal-sweep:with-expectation" } else { "decimal-sweep:no-expectation" });
+            emit_pair(g, enc, &ty, &data, expect.as_deref());
+            emit_spec(g, enc, &ty, &doc, expect.as_deref());
+        }
+    }
     // 2. documents with operators: Property capture (operators on any field, first fields included since the F9 repair)
-    let n = g.budget(3_000, 36_000);
+    let n = g.budget(6_000, 60_000);
     let cfg_ops = DocCfg { operators: true, ..DocCfg::save_style() };
     for _ in 0..n {
         let mut doc = gen_doc(&mut g.rng, &cfg_ops);
@@ -744,12 +834,13 @@ pub fn gen(g: &mut Gen) {
         let enc = if g.rng.chance(1, 2) { Enc::W } else { Enc::U };
         // a non-'=' operator under a non-Property type is dropped on both paths; value_of agrees with that
         let expect = value_of(enc, &ty, &doc);
+        count_float_hits(g, &expect);
         g.count(if expect.is_some() { "ops:with-expectation" } else { "ops:no-expectation" });
         emit_pair(g, enc, &ty, &data, expect.as_deref());
         emit_spec(g, enc, &ty, &doc, expect.as_deref());
     }
     // 3. malformed stream: mutations of rendered documents, random text; no expectation, correspondence only
-    let n = g.budget(6_000, 72_000);
+    let n = g.budget(12_000, 120_000);
     for _ in 0..n {
         let doc = gen_doc(&mut g.rng, &DocCfg { max_fields: 4, ..DocCfg::text_full() });
         let base = render_layout(&mut g.rng, &LayoutCfg::reader_safe(), &lexemes(&doc));
@@ -761,7 +852,7 @@ pub fn gen(g: &mut Gen) {
         emit_pair(g, enc, &ty, &data, None);
     }
     // 4. real derived structs against the Ty interpreter
-    let n = g.budget(2_500, 30_000);
+    let n = g.budget(5_000, 50_000);
     for i in 0..n {
         let enc = if i % 2 == 0 { Enc::W } else { Enc::U };
         if i % 4 == 3 {
